@@ -6,7 +6,7 @@ Parsed files are cached (pickle) next to the dump, keyed by the dump's content h
 import hashlib, os, pickle, re
 from dataclasses import dataclass, field
 
-PARSER_VERSION = 12
+PARSER_VERSION = 14
 
 
 @dataclass
@@ -389,6 +389,27 @@ def _parse_func(kind, hdr, body):
     return Func(strip_generics(name), kind2, params, ret, locs, out, impl_at=impl_at, debug=dbg)
 
 
+class _M:
+    def __init__(self, g): self.g = g
+    def group(self, i): return self.g[i - 1]
+
+
+def _split_const_line(ln):
+    """`const NAME: TYPE = const VALUE;` where NAME may contain `<impl at file:l:c: l:c>` (split at the first depth-0 `: `)"""
+    if not (ln.startswith("const ") and ln.endswith(";") and " = const " in ln): return None
+    body = ln[6:-1]
+    d = 0
+    for i, c in enumerate(body):
+        if c == "<": d += 1
+        elif c == ">" and body[i - 1] not in "-=": d -= 1
+        elif c == ":" and d == 0 and body[i + 1:i + 2] == " ":
+            name, rest = body[:i], body[i + 2:]
+            k = rest.find(" = const ")
+            if k < 0: return None
+            return _M((name, rest[:k], rest[k + 9:]))
+    return None
+
+
 def parse_text(txt, crate=""):
     lines = txt.split("\n")
     funcs = {}
@@ -415,10 +436,12 @@ def parse_text(txt, crate=""):
                 funcs.setdefault("!unparsed:" + m.group(2)[:120], Func("!unparsed", "bad", [], "", {}, {}, crate=crate, src=str(e)))
             i = j + 1
         else:
-            m1 = re.match(r"^const (.*?): (.*?) = const (.*);$", ln)
+            m1 = _split_const_line(ln)
             if m1:
                 nm = strip_generics(m1.group(1))
-                funcs.setdefault(nm, Func(nm, "constval", [], m1.group(2), {}, {}, crate=crate, src=m1.group(3)))
+                mi = re.search(r"<impl at (.*?):(\d+):(\d+): \d+:\d+>", m1.group(1))
+                funcs.setdefault(nm, Func(nm, "constval", [], m1.group(2), {}, {}, crate=crate, src=m1.group(3),
+                                          impl_at=(f"{mi.group(1)}:{mi.group(2)}:{mi.group(3)}" if mi else "")))
             i += 1
     return funcs
 
